@@ -1243,18 +1243,28 @@ class FuncContent:
             return CONTINUE_LINE
         try:
             delayed_error = self.lexer.datapack.delayed_error
-            append_commands(
-                self.__commands,
-                variable_operation(
-                    self.command[key_pos:],
-                    self.tokenizer,
-                    self.lexer.datapack,
-                    self.is_execute,
-                    type(self),
-                    FIRST_ARGUMENTS,
-                    self.prefix,
-                ),
+            after_return = self.__commands[-2:] == ["return", "run"]
+            var_command = variable_operation(
+                self.command[key_pos:],
+                self.tokenizer,
+                self.lexer.datapack,
+                # after `return run` the function that holds the statement is made below
+                self.is_execute and not after_return,
+                type(self),
+                FIRST_ARGUMENTS,
+                self.prefix,
             )
+            if key_pos != 0 and ("\n" in var_command or not var_command):
+                # The statement stands after `run` (of `execute` or of `return run`), where exactly ONE command fits:
+                # a statement that needs several commands (or none) becomes a private function, so that all of them
+                # are under the prefix (after `return run` its last command hands the value over to the caller)
+                var_commands = var_command.split("\n") if var_command else []
+                if var_commands and after_return:
+                    var_commands[-1] = "return run " + var_commands[-1]
+                var_command = self.lexer.datapack.add_raw_private_function(
+                    "anonymous", var_commands
+                )
+            append_commands(self.__commands, var_command)
             if delayed_error is None and self.lexer.datapack.delayed_error is not None:
                 raise self.lexer.datapack.delayed_error
         except EXCEPTIONS as var_error:
